@@ -13,6 +13,7 @@ import RotoV.Lemmas.Pratt
 import RotoV.Lemmas.Literal
 import RotoV.Generated.LookAhead
 import RotoV.Lemmas.LookAhead
+import RotoV.Generated.C09FStrText
 
 namespace RotoV.C09
 open RotoV RotoV.Pratt RotoV.Literal RotoV.FString RotoV.Gen.Precedence
@@ -418,8 +419,8 @@ theorem documented_escapes_ok :
     (Item.esc ['\\', '\\'] '\\').ok ∧
     (∀ (h l : Char) (a b : Nat), hexVal h = some a → hexVal l = some b → a * 16 + b < 128 →
       (Item.esc ['\\', 'x', h, l] (Char.ofNat (a * 16 + b))).ok) := by
-  have shape : ∀ k : Char, k ≠ 'u' → ∃ k' tail, ['\\', k] = '\\' :: k' :: tail ∧ k' ≠ 'u' ∧ ∀ d ∈ tail, copied d = true :=
-    fun k hk => ⟨k, [], rfl, hk, by simp⟩
+  have shape : ∀ k : Char, k ≠ 'u' → Transparent ['\\', k] :=
+    fun k hk => transparent_of_shape k [] hk (by simp)
   refine ⟨⟨fun r => (simple_escapes r).1, shape _ (by decide)⟩,
     ⟨fun r => (simple_escapes r).2.1, shape _ (by decide)⟩,
     ⟨fun r => (simple_escapes r).2.2.1, shape _ (by decide)⟩,
@@ -429,20 +430,48 @@ theorem documented_escapes_ok :
     ⟨fun r => (simple_escapes r).2.2.2.2.2.2, shape _ (by decide)⟩, ?_⟩
   intro h l a b ha hb hlt
   refine ⟨fun r => (hex_escape_and_continuation h l a b r ha hb hlt).1,
-    'x', [h, l], rfl, by decide, ?_⟩
+    transparent_of_shape 'x' [h, l] (by decide) ?_⟩
   intro d hd
   simp only [List.mem_cons, List.not_mem_nil, or_false] at hd
   rcases hd with rfl | rfl
   · exact copied_of_hex _ _ ha
   · exact copied_of_hex _ _ hb
 
+/-- `\\u{H…}` satisfies the hypothesis of `fstring_text_correct` as well: for
+    EVERY spelling of one to six hex digits denoting a scalar value, the escape
+    decodes to that character wherever it stands (`unicode_escape`) AND the
+    brace pass copies it whole — its own `{` and `}` are never taken for half
+    of a brace escape, and the pass resumes right after its closing `}`
+    (`Transparent`), so `\\u{41}{{`, `{{\\u{7b}`, `\\u{7d}}}` … mean what the
+    manual says. -/
+theorem unicode_escape_ok (c : Char) (cs : List Char) (d : Nat) (hd : hexVal c = some d)
+    (hcs : ∀ x ∈ cs, (hexVal x).isSome = true) (hlen : cs.length ≤ 5)
+    (hv : isScalar (hexFold d cs) = true) :
+    (Item.esc ('\\' :: 'u' :: '{' :: ((c :: cs) ++ ['}'])) (Char.ofNat (hexFold d cs))).ok := by
+  constructor
+  · intro rest
+    have := unicode_escape c cs rest d hd hcs hlen hv
+    simpa using this
+  · apply transparent_unicode
+    intro x hx
+    simp only [List.mem_cons] at hx
+    rcases hx with rfl | hx
+    · exact (hexVal_ne _ d hd).2
+    · obtain ⟨e, he⟩ := Option.isSome_iff_exists.mp (hcs x hx)
+      exact (hexVal_ne x e he).2
+
+/-- non-vacuity: `\\u{41}` is such an escape (`A`) -/
+example : (Item.esc ['\\', 'u', '{', '4', '1', '}'] 'A').ok :=
+  unicode_escape_ok '4' ['1'] 4 (by decide) (by decide) (by decide) (by decide)
+
 /-- T3d (`{{` / `}}`, after the fix). For EVERY f-string text built from plain
     characters (arbitrary Unicode), `EscOK` escape sequences (including escaped
     braces such as `\x7b`), `{{` and `}}`, the model of
     `unescape_f_string_part` returns the documented text: each escape its
     character, each doubled brace one brace, nothing else changed.
-    (Escapes of the form `\u{…}` are outside this statement: `fstring_collapse_fixed_witness`
-    and the correspondence run cover them.) -/
+    `\u{…}` escapes are included (`unicode_escape_ok`); only the line
+    continuation (`\` newline, which denotes no character) is outside this
+    statement and covered by the correspondence run. -/
 theorem fstring_text_correct (items : List Item) (hok : ∀ it ∈ items, it.ok) :
     partText (spell items) = some (meaning items) := by
   have := partText_items items [] hok (by simp) (by simp)
@@ -489,6 +518,216 @@ theorem lookahead_mode_safe (s : LookAhead.Lx) (h : LookAhead.ModeSafe s) :
     (∀ t s', s.next = some (t, s') → LookAhead.ModeSafe s') :=
   ⟨fun n => LookAhead.peekMany_modeSafe _ (by decide) n s h,
    LookAhead.peek_modeSafe s h, LookAhead.next_modeSafe s h⟩
+
+/-! ### the brace pass of `unescape_f_string_part`, tied to the source
+
+`Gen.C09FStrText` holds the backslash arm of `unescape_f_string_part` as the
+translator reads it from src/parser/expr.rs: the `&&` chain of tests on the
+peekable character iterator (`next()` consumes whatever comes, `peek()`
+nothing, `next_if(..)` only a match), the character ending the skip loop, and
+the characters whose doubling is a brace escape. -/
+
+/-- the generated pass: `Model/FString.partTextWith` run on the generated facts -/
+def partTextGen (raw : List Char) : Option (List Char) :=
+  partTextWith (armConsumed Gen.C09FStrText.backslashConds Gen.C09FStrText.backslashSkipStop)
+    Gen.C09FStrText.braceChars raw []
+
+/-- T3e (`backslash_arm_generated`). After a backslash, for EVERY continuation
+    of the text, the GENERATED arm consumes exactly what the documented pass
+    consumes: the next character whatever it is (so the second backslash of
+    `\\` can never start an escape), and after `u{` everything up to and
+    including the closing `}`. -/
+theorem backslash_arm_generated (cs : List Char) :
+    armConsumed Gen.C09FStrText.backslashConds Gen.C09FStrText.backslashSkipStop cs = armDoc cs := by
+  match cs with
+  | [] => rfl
+  | [d] =>
+    simp only [armConsumed, Gen.C09FStrText.backslashConds, Gen.C09FStrText.backslashSkipStop, runConds, armDoc]
+    by_cases h1 : d = 'u' <;> simp [h1]
+  | d :: e :: cs =>
+    simp only [armConsumed, Gen.C09FStrText.backslashConds, Gen.C09FStrText.backslashSkipStop, runConds, armDoc]
+    by_cases h1 : d = 'u' <;> by_cases h2 : e = '{' <;> simp [h1, h2, skipCount] <;> omega
+
+example : armConsumed Gen.C09FStrText.backslashConds Gen.C09FStrText.backslashSkipStop ['\\', 'u', '{', '{'] = 1 ∧
+    armConsumed Gen.C09FStrText.backslashConds Gen.C09FStrText.backslashSkipStop ['u', '{', '4', '1', '}', '{'] = 5 := by
+  decide
+
+/-- the generated brace characters are the documented ones -/
+theorem brace_chars_generated : Gen.C09FStrText.braceChars = ['{', '}'] := by decide
+
+/-- T3f (`partText_generated`). For EVERY text — valid or not, any mixture of
+    backslashes, `u`, braces and anything else — the pass run on the GENERATED
+    decisions computes what the hand model `partText` computes; together with
+    `fstring_text_correct` the statements about `partText` are statements about
+    the source's decisions. -/
+theorem partText_generated (raw : List Char) : partTextGen raw = partText raw := by
+  have h : armConsumed Gen.C09FStrText.backslashConds Gen.C09FStrText.backslashSkipStop = armDoc :=
+    funext backslash_arm_generated
+  unfold partTextGen partText
+  rw [h, brace_chars_generated]
+  exact partTextWith_doc raw []
+
+/-- T3g (`fstring_text_generated`). For EVERY f-string text built from plain
+    characters (arbitrary Unicode), documented escape sequences (including `\\\\`
+    directly followed by `u`, `x`, a doubled brace, … and escaped braces such as
+    `\\x7b`), `{{` and `}}`, in ANY order, the pass with the generated decisions
+    returns the documented text. -/
+theorem fstring_text_generated (items : List Item) (hok : ∀ it ∈ items, it.ok) :
+    partTextGen (spell items) = some (meaning items) := by
+  rw [partText_generated]
+  exact fstring_text_correct items hok
+
+/-- non-vacuity, the class "escaped backslash, `u`, brace escapes": the text
+    `\\\\u{{x}}` (an escaped backslash, `u`, `{{`, `x`, `}}`) means `\\u{x}` -/
+example : partTextGen ['\\', '\\', 'u', '{', '{', 'x', '}', '}'] = some ['\\', 'u', '{', 'x', '}'] := by
+  have := fstring_text_generated
+    [.esc ['\\', '\\'] '\\', .plain 'u', .lbrace, .plain 'x', .rbrace]
+    (by
+      intro it hit
+      simp only [List.mem_cons, List.not_mem_nil, or_false] at hit
+      rcases hit with rfl | rfl | rfl | rfl | rfl
+      · exact documented_escapes_ok.2.2.2.2.2.2.1
+      · exact ⟨by decide, by decide, by decide⟩
+      · trivial
+      · exact ⟨by decide, by decide, by decide⟩
+      · trivial)
+  simpa [spell, meaning, Item.spelling, Item.value] using this
+
+/-- necessity (`backslash_arm_must_consume`): an arm that consumes the character
+    after the backslash only when it is `u` (`next_if`) takes the second
+    backslash of `\\\\` for the start of `\\u{…}`: the text `\\\\u{{x}}` then
+    keeps its doubled braces. -/
+theorem backslash_arm_must_consume :
+    partTextWith (armConsumed [.nextIfIs 'u', .nextIfIs '{'] (some '}')) ['{', '}']
+      ['\\', '\\', 'u', '{', '{', 'x', '}', '}'] [] = some ['\\', 'u', '{', '{', 'x', '}', '}'] := by
+  simp [partTextWith, armConsumed, runConds, skipCount, unescape, simpleEscape]
+
+/-! ### the two scanners together: `Lexer::f_string_part`, then the brace pass -/
+
+theorem special_of_hex (c : Char) (a : Nat) (h : hexVal c = some a) : special c = false := by
+  have h1 : hexVal '\\' = none := by decide
+  have h2 : hexVal '{' = none := by decide
+  have h3 : hexVal '"' = none := by decide
+  simp only [special, Bool.or_eq_false_iff, beq_eq_false_iff_ne]
+  refine ⟨⟨?_, ?_⟩, ?_⟩ <;> (intro hc; subst hc; simp_all)
+
+/-- the documented escapes satisfy the LEXER's hypothesis (`Item.lexOk`: the
+    scanner of `f_string_part` walks over the spelling and goes on right behind
+    it): the seven simple escapes, every `\\xHH`, every `\\u{…}` without a `}` inside -/
+theorem documented_escapes_lex_ok :
+    (∀ k ∈ ['0', 't', 'n', 'r', '"', '\'', '\\'], ∀ v, (Item.esc ['\\', k] v).lexOk) ∧
+    (∀ (h l : Char) (a b : Nat) (v : Char), hexVal h = some a → hexVal l = some b →
+      (Item.esc ['\\', 'x', h, l] v).lexOk) ∧
+    (∀ (hs : List Char) (v : Char), (∀ c ∈ hs, c ≠ '}') →
+      (Item.esc ('\\' :: 'u' :: '{' :: (hs ++ ['}'])) v).lexOk) := by
+  refine ⟨?_, ?_, ?_⟩
+  · intro k hk v
+    simp only [List.mem_cons, List.not_mem_nil, or_false] at hk
+    rcases hk with rfl | rfl | rfl | rfl | rfl | rfl | rfl <;>
+      exact scanThrough_esc2 _ [] (by decide) (by decide) (by simp)
+  · intro h l a b v ha hb
+    refine scanThrough_esc2 'x' [h, l] (by decide) (by decide) ?_
+    intro c hc
+    simp only [List.mem_cons, List.not_mem_nil, or_false] at hc
+    rcases hc with rfl | rfl
+    · exact special_of_hex _ _ ha
+    · exact special_of_hex _ _ hb
+  · intro hs v h
+    exact scanThrough_unicode hs h
+
+/-- T4c (`fstring_text_lexed_and_decoded`). The WHOLE path of a text part: for
+    EVERY non-empty text of plain Unicode characters, documented escape
+    sequences (`Item.ok` for the decoder, `Item.lexOk` for the lexer — both hold
+    for every documented escape: `documented_escapes_ok`, `unicode_escape_ok`,
+    `documented_escapes_lex_ok`), `{{` and `}}` in ANY order, followed by the
+    closing quote and anything else: the model of `Lexer::f_string_part` ends
+    the part exactly at the quote (an escaped quote, an escaped backslash before
+    the quote, the braces of `\\u{…}` and doubled braces do not end it), and the
+    brace pass run on the GENERATED decisions gives the documented text. -/
+theorem fstring_text_lexed_and_decoded (items : List Item) (rest : List Char) (fuel : Nat)
+    (hok : ∀ it ∈ items, it.ok) (hlex : ∀ it ∈ items, it.lexOk) (hne : spell items ≠ []) :
+    fStringP partTextGen (fuel + 1) (spell items ++ '"' :: rest) = some [.text (meaning items)] :=
+  fStringP_text partTextGen items rest fuel hlex hne (fstring_text_generated items hok)
+
+/-- T4d (`fstring_text_hole_text_lexed_and_decoded`). The same around a hole:
+    text, `{`, a hole whose source has no `}` and does not begin with `{`, `}`,
+    text, closing quote — the lexer ends the first part exactly before the
+    hole's `{`, and both texts mean what the manual says. -/
+theorem fstring_text_hole_text_lexed_and_decoded (a b : List Item) (h rest : List Char) (c : Char) (fuel : Nat)
+    (hoka : ∀ it ∈ a, it.ok) (hokb : ∀ it ∈ b, it.ok)
+    (ha : ∀ it ∈ a, it.lexOk) (hb : ∀ it ∈ b, it.lexOk)
+    (hna : spell a ≠ []) (hnb : spell b ≠ []) (hc : c ≠ '{') (hh : ∀ d ∈ c :: h, d ≠ '}') :
+    fStringP partTextGen (fuel + 2) (spell a ++ '{' :: c :: (h ++ '}' :: (spell b ++ '"' :: rest))) =
+      some [.text (meaning a), .hole (c :: h), .text (meaning b)] :=
+  fStringP_text_hole_text partTextGen a b h rest c fuel ha hb hna hnb
+    (fstring_text_generated a hoka) (fstring_text_generated b hokb) hc hh
+
+/-- non-vacuity, the class of seeded C09-8 through lexer AND decoder:
+    `f"\\\\u{{{x}}}"` is the text `\\u{`, the hole `x`, the text `}` -/
+example : fStringP partTextGen 2
+    (['\\', '\\', 'u', '{', '{'] ++ '{' :: 'x' :: ([] ++ '}' :: (['}', '}'] ++ '"' :: []))) =
+    some [.text ['\\', 'u', '{'], .hole ['x'], .text ['}']] := by
+  have hbs : (Item.esc ['\\', '\\'] '\\').ok := documented_escapes_ok.2.2.2.2.2.2.1
+  have hbl : (Item.esc ['\\', '\\'] '\\').lexOk := documented_escapes_lex_ok.1 '\\' (by simp) '\\'
+  have := fstring_text_hole_text_lexed_and_decoded
+    [.esc ['\\', '\\'] '\\', .plain 'u', .lbrace] [.rbrace] [] [] 'x' 0
+    (by
+      intro it hit
+      simp only [List.mem_cons, List.not_mem_nil, or_false] at hit
+      rcases hit with rfl | rfl | rfl
+      · exact hbs
+      · exact ⟨by decide, by decide, by decide⟩
+      · trivial)
+    (by intro it hit; simp only [List.mem_cons, List.not_mem_nil, or_false] at hit; subst hit; trivial)
+    (by
+      intro it hit
+      simp only [List.mem_cons, List.not_mem_nil, or_false] at hit
+      rcases hit with rfl | rfl | rfl
+      · exact hbl
+      · show special 'u' = false; decide
+      · trivial)
+    (by intro it hit; simp only [List.mem_cons, List.not_mem_nil, or_false] at hit; subst hit; trivial)
+    (by simp [spell, Item.spelling]) (by simp [spell, Item.spelling]) (by decide) (by simp)
+  simpa [spell, meaning, Item.spelling, Item.value] using this
+
+/-- T4e (`fstring_parts_lexed_and_decoded`). ANY number of holes: for EVERY
+    f-string `text {hole} text {hole} … text"` whose texts are non-empty
+    sequences of plain Unicode characters, documented escapes, `{{` and `}}`
+    and whose holes' sources are non-empty, do not begin with `{` and contain
+    no `}`, the model of `Lexer::f_string_part` cuts exactly before every hole
+    and at the closing quote, and the brace pass run on the GENERATED decisions
+    gives every text its documented meaning (by induction over the segments).
+    (Empty texts — a leading hole, adjacent holes — take the model's
+    `raw.isEmpty` branch and are covered by the correspondence run.) -/
+theorem fstring_parts_lexed_and_decoded (segs : List (List Item × List Char)) (last : List Item)
+    (rest : List Char) (fuel : Nat)
+    (hseg : ∀ s ∈ segs, (∀ it ∈ s.1, it.ok) ∧ (∀ it ∈ s.1, it.lexOk) ∧ spell s.1 ≠ [] ∧ HoleOk s.2)
+    (hok : ∀ it ∈ last, it.ok) (hl : ∀ it ∈ last, it.lexOk) (hnl : spell last ≠ []) :
+    fStringP partTextGen (segs.length + 1 + fuel) (renderSegs segs last rest) = some (partsOf segs last) :=
+  fStringP_segs partTextGen segs last rest fuel
+    (fun s hs => ⟨(hseg s hs).2.1, (hseg s hs).2.2.1, fstring_text_generated s.1 (hseg s hs).1, (hseg s hs).2.2.2⟩)
+    hl hnl (fstring_text_generated last hok)
+
+/-- non-vacuity: `f"a{x}{{{y}}}"` is such an f-string (two holes) -/
+example : fStringP partTextGen 3 (renderSegs [([.plain 'a'], ['x']), ([.lbrace], ['y'])] [.rbrace] []) =
+    some [.text ['a'], .hole ['x'], .text ['{'], .hole ['y'], .text ['}']] := by
+  have := fstring_parts_lexed_and_decoded [([.plain 'a'], ['x']), ([.lbrace], ['y'])] [.rbrace] [] 0
+    (by
+      intro s hs
+      simp only [List.mem_cons, List.not_mem_nil, or_false] at hs
+      rcases hs with rfl | rfl
+      · refine ⟨?_, ?_, by simp [spell, Item.spelling], ⟨⟨'x', [], rfl, by decide⟩, by simp⟩⟩
+        · intro it hit; simp only [List.mem_cons, List.not_mem_nil, or_false] at hit; subst hit
+          exact ⟨by decide, by decide, by decide⟩
+        · intro it hit; simp only [List.mem_cons, List.not_mem_nil, or_false] at hit; subst hit
+          show special 'a' = false; decide
+      · refine ⟨?_, ?_, by simp [spell, Item.spelling], ⟨⟨'y', [], rfl, by decide⟩, by simp⟩⟩
+        · intro it hit; simp only [List.mem_cons, List.not_mem_nil, or_false] at hit; subst hit; trivial
+        · intro it hit; simp only [List.mem_cons, List.not_mem_nil, or_false] at hit; subst hit; trivial)
+    (by intro it hit; simp only [List.mem_cons, List.not_mem_nil, or_false] at hit; subst hit; trivial)
+    (by intro it hit; simp only [List.mem_cons, List.not_mem_nil, or_false] at hit; subst hit; trivial)
+    (by simp [spell, Item.spelling])
+  simpa [partsOf, meaning, Item.value] using this
 
 /-- T6b (`fstring_scanner_starts_at_text`). When the parser takes `f"` from a
     mode-safe lexer the queue is empty afterwards, so `f_string_part` — which
